@@ -82,6 +82,13 @@ CHECKS.update({
             "TLA+ spec + TLC model checking + trace validation", "5 (C17)"),
 })
 
+CHECKS.update({
+    "C18": ("model_checking", "TLC checks hint soundness (exact) and the language equations for every composition shape over every sampled component pair "
+            "with every sound hint assignment (MC_Automata) and validates runs of the real combinator types over real leaves on every "
+            "string up to a length against the languages and exact reachability.",
+            "TLA+ spec + TLC model checking + trace validation", "5 (C18)"),
+})
+
 NOT_YET = {
 }
 
